@@ -16,6 +16,7 @@ VARIABLES l,      \* next line
           P, T,   \* its parameters and plan
           m,      \* machine state
           I,      \* memo: the abstract set of stored events of the current frame ({-1}: stream too long)
+          cov,    \* what the accepted executions exercised (for the runner's vacuity guards)
           bad
 
 AbsMax == 400        \* direct comparison with the abstract histogram up to this stream length
@@ -23,6 +24,7 @@ AbsMaxCount == 100   \* ... in num_events_to_store mode (cubic)
 
 (* ---------------- constant-level tables derived from the log ---------------- *)
 CfgLines == { k \in 1..Len(TraceLog) : TraceLog[k].e \in {"Config", "GConfig"} }
+StartLines == {"Config", "GConfig", "EConfig"}
 TemplGeo(r) == [N |-> r.N, R |-> r.R, span |-> r.span, ge |-> r.ge, maxDelta |-> r.maxDelta, mash |-> r.mash,
                 tofMash |-> r.tofMash, maxT |-> r.maxT, minTang |-> r.minTang, maxTang |-> r.maxTang,
                 minSeg |-> r.minSeg, maxSeg |-> r.maxSeg]
@@ -163,7 +165,15 @@ XSens(sub, k) ==
   [v \in 1..XCfg.nvox |->
      FoldSet(LAMBDA q, acc : acc + (IF XCfg.rows[q][3] % XCfg.numSubsets = sub THEN Weight(XCfg.rows[q], v) * 2 ^ k ELSE 0), 0, 1..Len(XCfg.rows))]
 SeqIs(q, f, n) == Len(q) = n /\ \A v \in 1..n : q[v] = f[v]
+\* Hessian of the log-likelihood times the image itself: - sum over the stored prompts e of
+\*   P[bin(e)][v] * (P lambda)[bin(e)] / (P lambda + a)[bin(e)]^2   (P lambda = 2^(QExp - additive code))
+XHess(sub, k) ==
+  [v \in 1..XCfg.nvox |->
+     -FoldSet(LAMBDA i, acc : acc + (IF ViewOfKey(P.c, KeyOf(RS[i])) % XCfg.numSubsets = sub
+                                     THEN Weight(RowOfKey(KeyOf(RS[i])), v)
+                                          * 2 ^ (k + QExp(RowOfKey(KeyOf(RS[i]))) - RowOfKey(KeyOf(RS[i]))[10] - 2 * QExp(RowOfKey(KeyOf(RS[i])))) ELSE 0), 0, I)]
 XExpected(r) == IF r.e = "Sens" THEN XSens(r.subset, r.k)
+                ELSE IF r.e = "Hess" THEN XHess(r.subset, r.k)
                 ELSE IF r.plusSens THEN XData(r.subset, r.k)
                 ELSE [v \in 1..XCfg.nvox |-> XData(r.subset, r.k)[v] - XSens(r.subset, r.k)[v]]
 
@@ -174,7 +184,7 @@ ConfigOk(r) ==
   /\ LegalConfig(tc) /\ ~TruncSingleRD(tc) /\ ~tc.ge
   /\ LegalFrames(pp)
   /\ r.e = "Config" => (r.maxSegProc >= -1 /\ (r.segIM = -1 \/ r.segIM >= 1) /\ (r.tofIM = -1 \/ r.tofIM >= 1) /\ (r.fileOut => r.fresh))
-  /\ r.e = "GConfig" => (r.numSubsets >= 1 /\ (r.xm => XmOk(r, tc)))
+  /\ r.e = "GConfig" => (r.numSubsets >= 1 /\ r.cache >= 0 /\ (r.disk => r.cache > 0) /\ (r.xm => XmOk(r, tc)))
 
 \* gradient executions: GConfig, Stream, Out (histogram of the frame's prompts), Sens ..., Grad ..., End
 \* "The gradient of the list-mode Poisson log-likelihood equals the gradient of the projection-data
@@ -188,15 +198,48 @@ ConfigOk(r) ==
 \*   both classes document the non-TOF sensitivity as an approximation ("the TOF kernel sums to 1"), so the
 \*   full gradient is claimed for non-TOF data only.
 FullGradientClaimed(c) == NumTof(c) = 1
+\* The result must not depend on how the list-mode objective function gets its events (XCfg.cache, XCfg.disk: one
+\* batch, batches of `cache' events re-read from the stream, batches cached in files): the demands below do not
+\* mention the batch size.
 GradOk(r) ==
-  IF XCfg.xm THEN r.k >= 6 /\ SeqIs(r.lm, XExpected(r), XCfg.nvox) /\ SeqIs(r.pd, XExpected(r), XCfg.nvox)
-  ELSE (r.e = "Sens" \/ r.plusSens \/ FullGradientClaimed(P.c)) => GradAgree(r.lm, r.pd)
+  IF XCfg.xm THEN r.k >= (IF r.e = "Hess" THEN 12 ELSE 6) /\ SeqIs(r.lm, XExpected(r), XCfg.nvox) /\ SeqIs(r.pd, XExpected(r), XCfg.nvox)
+  ELSE (r.e \in {"Sens", "Hess"} \/ r.plusSens \/ FullGradientClaimed(P.c)) => GradAgree(r.lm, r.pd)
 GradLine(r) ==
   CASE r.e = "Stream" -> IF m.pc = "stream" /\ l = run + 1 THEN [m EXCEPT !.pc = "g-hist"] ELSE Rej
     [] r.e = "Out" -> IF m.pc = "g-hist" /\ NzValid(P.c, r.nz) /\ (I # {-1} => NzIsHist(P.c, r.nz, I)) THEN [m EXCEPT !.pc = "g-grad"] ELSE Rej
-    [] r.e \in {"Sens", "Grad"} -> IF m.pc = "g-grad" /\ r.subset \in 0..(XCfg.numSubsets - 1) /\ GradOk(r) THEN m ELSE Rej
+    [] r.e \in {"Sens", "Grad", "Hess"} -> IF m.pc = "g-grad" /\ r.subset \in 0..(XCfg.numSubsets - 1) /\ GradOk(r) THEN m ELSE Rej
     [] r.e = "End" -> IF m.pc = "g-grad" /\ ~r.err THEN [m EXCEPT !.pc = "done"] ELSE Rej
     [] OTHER -> Rej
+
+(* ------------- ECAT8 32-bit words through CListRecordECAT8_32bit ------------- *)
+\* EConfig: scanner + template geometry; W: one word and what the real record class decoded
+ECfg == TraceLog[run]
+EcatLine(r) ==
+  CASE r.e = "W" ->
+         IF m.pc # "e-words" THEN Rej
+         ELSE LET cu == EcatGeo(ECfg.N, ECfg.R, ECfg.maxT, ECfg.uNumTang)
+                  ct == TemplGeo(ECfg) IN
+              IF EcatIsTag(r.hi)
+              THEN (IF /\ ~r.isEvent /\ r.isTime = (EcatTagKind(r.hi) = 0)
+                       /\ r.isTime => r.ms = EcatTime(r.hi, r.lo)
+                    THEN m ELSE Rej)
+              ELSE LET off == EcatOffset(r.hi, r.lo)
+                       p == << r.d1, r.r1, r.d2, r.r2, r.t >> IN
+                   IF /\ EcatOffsetValid(cu, off)               \* (otherwise the driver is at fault)
+                      /\ r.isEvent /\ ~r.isTime
+                      /\ r.prompt = (EcatPromptBit(r.hi) = 1)
+                      \* the decoded detector pair is one of the bin the offset points at
+                      /\ r.d1 \in 0..(cu.N - 1) /\ r.d2 \in 0..(cu.N - 1) /\ r.d1 # r.d2 /\ r.r1 \in Rings(cu) /\ r.r2 \in Rings(cu)
+                      /\ AssignedTo(cu, p, EcatBinOfOffset(cu, off))
+                      \* and the event is binned into the template by the data geometry
+                      /\ \E same \in BOOLEAN :
+                           /\ IsInPlaneOf(ct, r.d1, r.d2, r.view, r.tang, same)
+                           /\ LET tb == BinGiven(ct, p, r.view, r.tang, same) IN
+                              IF tb = NoBin THEN ~r.ok ELSE r.ok /\ tb = Bin(r.seg, r.ax, r.view, r.tang, r.tof)
+                   THEN m ELSE Rej
+    [] r.e = "End" -> IF m.pc = "e-words" /\ ~r.err THEN [m EXCEPT !.pc = "done"] ELSE Rej
+    [] OTHER -> Rej
+EConfigOk(r) == LET tc == TemplGeo(r) IN LegalConfig(tc) /\ ~TruncSingleRD(tc) /\ ~tc.ge /\ r.uNumTang >= 1 /\ r.uNumTang <= r.N - 1
 
 \* An unexplained line is attributed to a known finding only by its signature (known_findings.jsonl):
 \* C14-unmarked-frame: the frame contains no time mark (the mark that ended the search for its start lies
@@ -208,7 +251,7 @@ GradLine(r) ==
 \* On exact instances the projection-data side must in addition be what TLC computes.
 AllZero(q) == \A i \in 1..Len(q) : q[i] = 0
 Classify(r) ==
-  IF run = 0 THEN "new"
+  IF run = 0 \/ TraceLog[run].e = "EConfig" THEN "new"
   ELSE IF TraceLog[run].e = "Config"
        THEN (IF m.pc = "read" /\ m.empty /\ r.e = "R" THEN "C14-unmarked-frame" ELSE "new")
        ELSE IF r.e = "Grad" /\ m.pc = "g-grad" /\ r.plusSens /\ Len(r.lm) = Len(r.pd) /\ r.subset \in 0..(XCfg.numSubsets - 1)
@@ -218,31 +261,56 @@ Classify(r) ==
             ELSE "new"
 
 Idle == [pc |-> "idle"]
-Init == l = 1 /\ run = 0 /\ P = << >> /\ T = << >> /\ m = Idle /\ I = {} /\ bad = << >>
+Cov0 == [emptyFrameRewind |-> 0, boundaryMark |-> 0, emptyOut |-> 0, multiBatchMem |-> 0, multiBatchDisk |-> 0, ecatTofWords |-> 0, ecatWords |-> 0]
+Init == l = 1 /\ run = 0 /\ P = << >> /\ T = << >> /\ m = Idle /\ I = {} /\ bad = << >> /\ cov = Cov0
 Note(b, ln, cls) == IF Len(SelectSeq(b, LAMBDA x : x[2] = cls)) < (IF cls = "new" THEN 200 ELSE 20) THEN Append(b, << ln, cls >>) ELSE b
+\* coverage facts of an ACCEPTED line r (machine state m before the line)
+CovOf(r, nm) ==
+  IF TraceLog[run].e = "Config"
+  THEN [cov EXCEPT
+          \* a later pass (after a rewind) over a frame that contains no time mark
+          !.emptyFrameRewind = @ + (IF r.e = "Rewind" /\ m.empty THEN 1 ELSE 0),
+          \* a time mark exactly on the end of the frame being read
+          !.boundaryMark = @ + (IF r.e = "R" /\ r.i > 0 /\ m.pc = "read" /\ IsTime(Stream[r.i]) /\ MsOf(Stream[r.i]) = T.frames[m.f][2] THEN 1 ELSE 0),
+          !.emptyOut = @ + (IF r.e = "Out" /\ ~r.part /\ r.nz = << >> THEN 1 ELSE 0)]
+  ELSE IF TraceLog[run].e = "GConfig"
+  THEN [cov EXCEPT
+          \* gradient with more stored prompts than one batch holds
+          !.multiBatchMem = @ + (IF r.e = "Grad" /\ r.plusSens /\ XCfg.cache > 0 /\ ~XCfg.disk /\ I # {-1} /\ Cardinality(I) > XCfg.cache THEN 1 ELSE 0),
+          !.multiBatchDisk = @ + (IF r.e = "Grad" /\ r.plusSens /\ XCfg.cache > 0 /\ XCfg.disk /\ I # {-1} /\ Cardinality(I) > XCfg.cache THEN 1 ELSE 0)]
+  ELSE [cov EXCEPT
+          !.ecatWords = @ + (IF r.e = "W" THEN 1 ELSE 0),
+          \* event words of a TOF scanner that point beyond the first TOF block
+          !.ecatTofWords = @ + (IF r.e = "W" /\ ~EcatIsTag(r.hi) /\ ECfg.maxT > 0
+                                    /\ EcatBinOfOffset(EcatGeo(ECfg.N, ECfg.R, ECfg.maxT, ECfg.uNumTang), EcatOffset(r.hi, r.lo)).tof # 0 THEN 1 ELSE 0)]
 Next ==
   /\ l <= Len(TraceLog)
   /\ l' = l + 1
   /\ LET r == TraceLog[l]
          \* an execution that was cut short (no End) is unexplained as well
-         b0 == IF r.e \in {"Config", "GConfig"} /\ m.pc \notin {"idle", "done", "dead"} THEN Note(bad, l, "new") ELSE bad
+         b0 == IF r.e \in StartLines /\ m.pc \notin {"idle", "done", "dead"} THEN Note(bad, l, "new") ELSE bad
      IN IF r.e \in {"Config", "GConfig"}
-        THEN IF ConfigOk(r)
-             THEN /\ run' = l /\ P' = ParamsOf(r) /\ T' = PlanOf(ParamsOf(r))
-                  /\ m' = [pc |-> "stream"] /\ bad' = b0
-                  /\ I' = IF r.e = "GConfig" THEN (IF r.len <= AbsMax THEN StoredIdx(ParamsOf(r), TraceLog[l + 1].recs, ResOfRun[l], 1) ELSE {-1}) ELSE {}
-             ELSE /\ bad' = Note(b0, l, "bad-config") /\ m' = [pc |-> "dead"] /\ UNCHANGED << run, P, T, I >>
-        ELSE IF m.pc \in {"dead", "idle"} THEN UNCHANGED << run, P, T, m, I, bad >>
-        ELSE LET nm == IF TraceLog[run].e = "Config" THEN HistLine(r) ELSE GradLine(r) IN
+        THEN /\ cov' = cov
+             /\ IF ConfigOk(r)
+                THEN /\ run' = l /\ P' = ParamsOf(r) /\ T' = PlanOf(ParamsOf(r))
+                     /\ m' = [pc |-> "stream"] /\ bad' = b0
+                     /\ I' = IF r.e = "GConfig" THEN (IF r.len <= AbsMax THEN StoredIdx(ParamsOf(r), TraceLog[l + 1].recs, ResOfRun[l], 1) ELSE {-1}) ELSE {}
+                ELSE /\ bad' = Note(b0, l, "bad-config") /\ m' = [pc |-> "dead"] /\ UNCHANGED << run, P, T, I >>
+        ELSE IF r.e = "EConfig"
+        THEN /\ cov' = cov /\ UNCHANGED << P, T, I >>
+             /\ IF EConfigOk(r) THEN run' = l /\ m' = [pc |-> "e-words"] /\ bad' = b0
+                ELSE bad' = Note(b0, l, "bad-config") /\ m' = [pc |-> "dead"] /\ run' = run
+        ELSE IF m.pc \in {"dead", "idle"} THEN UNCHANGED << run, P, T, m, I, bad, cov >>
+        ELSE LET nm == IF TraceLog[run].e = "Config" THEN HistLine(r) ELSE IF TraceLog[run].e = "GConfig" THEN GradLine(r) ELSE EcatLine(r) IN
              /\ UNCHANGED << run, P, T >>
-             /\ IF nm = Rej THEN bad' = Note(bad, l, Classify(r)) /\ m' = [pc |-> "dead"] /\ I' = I
-                ELSE /\ bad' = bad /\ m' = nm
+             /\ IF nm = Rej THEN bad' = Note(bad, l, Classify(r)) /\ m' = [pc |-> "dead"] /\ I' = I /\ cov' = cov
+                ELSE /\ bad' = bad /\ m' = nm /\ cov' = CovOf(r, nm)
                      /\ I' = IF r.e = "NewFrame" THEN StoredMemo(r.f) ELSE I
-Spec == Init /\ [][Next]_<< l, run, P, T, m, I, bad >>
+Spec == Init /\ [][Next]_<< l, run, P, T, m, I, bad, cov >>
 
 \* evaluated in the final state only: prints the unexplained lines
 Final == IF m.pc \in {"idle", "done", "dead"} THEN bad ELSE Append(bad, << Len(TraceLog), "new" >>)
-Done == l > Len(TraceLog) => (Final = << >> \/ PrintT(<< "UNEXPLAINED", Final >>))
+Done == l > Len(TraceLog) => (PrintT(<< "COVER", cov >>) /\ (Final = << >> \/ PrintT(<< "UNEXPLAINED", Final >>)))
 Consumed == IF TLCGet("stats").diameter - 1 = Len(TraceLog) THEN TRUE
             ELSE PrintT(<< "REJECTED_AT", TLCGet("stats").diameter >>) /\ FALSE
 =============================================================================
